@@ -11,6 +11,7 @@ import (
 	"fmt"
 	"io"
 	"math/rand"
+	"os"
 	"strings"
 	"sync"
 	"sync/atomic"
@@ -18,6 +19,7 @@ import (
 	"time"
 
 	"github.com/samsarahq/thunder/batch"
+	"github.com/samsarahq/thunder/diff"
 	"github.com/samsarahq/thunder/graphql"
 	"github.com/samsarahq/thunder/reactive"
 	"github.com/samsarahq/thunder/verifharness/gen"
@@ -37,9 +39,17 @@ const (
 	fPanic
 	fPlainWrapsCanceled // a plain error that wraps context.Canceled (the request context is live)
 	fSafeWrapsCanceled  // WrapAsSafeError around context.Canceled
+	fCustomSanitized    // an application type implementing graphql.SanitizedError whose Error() differs from SanitizedError()
 )
 
-var kindNames = []string{"plain", "SafeError", "ClientError", "WrapAsSafeError", "safe-wrapped-in-plain", "panic", "plain-wrapping-context.Canceled", "WrapAsSafeError(context.Canceled)"}
+// customErr is an application error type that marks itself client-safe: only
+// SanitizedError() may reach a client, Error() is internal.
+type customErr struct{ public, internal string }
+
+func (e customErr) Error() string          { return e.internal }
+func (e customErr) SanitizedError() string { return e.public }
+
+var kindNames = []string{"plain", "SafeError", "ClientError", "WrapAsSafeError", "safe-wrapped-in-plain", "panic", "plain-wrapping-context.Canceled", "WrapAsSafeError(context.Canceled)", "custom-SanitizedError-type"}
 
 type failure struct {
 	typ, field string
@@ -57,7 +67,7 @@ func (f *failure) matches(typ string, id int64, field string) bool {
 // safeMessage is the exact text a websocket client may see ("" = generic only).
 func (f *failure) safeMessage() string {
 	switch f.kind {
-	case fSafe, fClient, fWrapSafe, fSafeWrapsCanceled:
+	case fSafe, fClient, fWrapSafe, fSafeWrapsCanceled, fCustomSanitized:
 		return f.token
 	}
 	return ""
@@ -67,6 +77,13 @@ type plan struct {
 	fails []*failure
 	res   *reactive.Resource // dependency registered by root resolvers inside a rerunner
 	calls int64
+	// late: from the second run on, resolving (lateTyp, lateField) waits for the
+	// run's deadline to pass (ignoring it), then fails. The subscription's
+	// makeCtx gives re-runs a deadline.
+	late                bool
+	lateTyp, lateField  string
+	runs                int64
+	lateFailures        int64
 }
 
 type planKey struct{}
@@ -84,6 +101,20 @@ func failHook(ctx context.Context, typ string, id int64, field string, inBatch b
 	if typ == "Query" && p.res != nil && reactive.HasRerunner(ctx) {
 		reactive.AddDependency(ctx, p.res, nil)
 	}
+	if p.late && typ == p.lateTyp && field == p.lateField && p.res != nil && reactive.HasRerunner(ctx) {
+		// the late field depends on the strobed resource itself, so its cached computation is re-run
+		reactive.AddDependency(ctx, p.res, nil)
+	}
+	if p.late && typ == p.lateTyp && field == p.lateField && atomic.LoadInt64(&p.runs) >= 2 {
+		if dl, ok := ctx.Deadline(); ok {
+			if d := time.Until(dl); d > 0 {
+				time.Sleep(d)
+			}
+			time.Sleep(3 * time.Millisecond) // outlive the deadline: user code that ignores ctx
+		}
+		atomic.AddInt64(&p.lateFailures, 1)
+		return errors.New("late failure")
+	}
 	for _, f := range p.fails {
 		if f.matches(typ, id, field) {
 			if f.kind == fPanic {
@@ -96,7 +127,7 @@ func failHook(ctx context.Context, typ string, id int64, field string, inBatch b
 }
 
 func newFailure(r *rand.Rand, n int, typ, field string, ids map[int64]bool) *failure {
-	f := &failure{typ: typ, field: field, ids: ids, kind: failKind(r.Intn(8))}
+	f := &failure{typ: typ, field: field, ids: ids, kind: failKind(r.Intn(9))}
 	f.token = fmt.Sprintf("tok%dv%d", n, r.Int63())
 	f.secret = fmt.Sprintf("sec%dv%d", n, r.Int63())
 	switch f.kind {
@@ -114,6 +145,8 @@ func newFailure(r *rand.Rand, n int, typ, field string, ids map[int64]bool) *fai
 		f.err = fmt.Errorf("%s: %w", f.token+" "+f.secret, context.Canceled)
 	case fSafeWrapsCanceled:
 		f.err = graphql.WrapAsSafeError(context.Canceled, "%s", f.token)
+	case fCustomSanitized:
+		f.err = customErr{public: f.token, internal: "internal " + f.secret}
 	}
 	return f
 }
@@ -242,6 +275,11 @@ func (sc *scenario) checkError(err error, opName string) string {
 		switch f.kind {
 		case fSafe, fClient, fWrapSafe, fSafeWrapsCanceled:
 			if _, ok := err.(graphql.SanitizedError); ok && text == f.token {
+				return ""
+			}
+			continue
+		case fCustomSanitized:
+			if se, ok := err.(graphql.SanitizedError); ok && se.SanitizedError() == f.token && err == f.err {
 				return ""
 			}
 			continue
@@ -398,6 +436,20 @@ func TestCheck(t *testing.T) {
 			return
 		}
 		b := schemas[i%len(schemas)]
+		if i%3 == 0 && len(sc.onPath) == 0 && len(schemas) > 1 {
+			// a resolver of an Expensive field that, on re-runs, outlives the run's deadline and then fails
+			var cands []gen.Resolution
+			for _, t := range sc.trace {
+				if t.Type != "Query" {
+					cands = append(cands, t)
+				}
+			}
+			if len(cands) > 0 {
+				t := cands[i/3%len(cands)]
+				sc.plan.late, sc.plan.lateTyp, sc.plan.lateField = true, t.Type, t.Field
+				b = schemas[1] // uniform-expensive
+			}
+		}
 		wsScenario(run, 1000000+i, sc, b)
 	})
 }
@@ -523,7 +575,16 @@ func wsScenario(run *vlib.Run, caseIdx int, sc *scenario, b *built) {
 	conn := graphql.CreateConnection(ctx, sock, b.schema,
 		graphql.WithMinRerunInterval(time.Millisecond),
 		graphql.WithSubscriptionLogger(lg),
-		graphql.WithMakeCtx(func(ctx context.Context) context.Context { return withPlan(ctx, sc.plan) }))
+		graphql.WithMakeCtx(func(ctx context.Context) context.Context {
+			n := atomic.AddInt64(&sc.plan.runs, 1)
+			ctx = withPlan(ctx, sc.plan)
+			if sc.plan.late && n >= 2 {
+				var cancel context.CancelFunc
+				ctx, cancel = context.WithTimeout(ctx, 5*time.Millisecond)
+				time.AfterFunc(time.Second, cancel) // released after the deadline has long fired
+			}
+			return ctx
+		}))
 	done := make(chan struct{})
 	go func() { defer close(done); conn.ServeJSONSocket() }()
 	defer func() {
@@ -582,9 +643,18 @@ func wsScenario(run *vlib.Run, caseIdx int, sc *scenario, b *built) {
 	run.Case("ws|"+sc.doc.Shape()+"|"+kinds, failing)
 	run.Count("ws_scenarios", 1)
 	var nErr, nUpd int
+	var client interface{} = vlib.Undefined{}
 	for _, e := range envs {
 		if e.ID != "s1" {
 			continue
+		}
+		if e.Type == "update" {
+			var delta interface{}
+			if err := json.Unmarshal(e.Message, &delta); err == nil {
+				if next, merr := vlib.MergeTS(client, delta); merr == nil {
+					client = next
+				}
+			}
 		}
 		switch e.Type {
 		case "error":
@@ -630,6 +700,23 @@ func wsScenario(run *vlib.Run, caseIdx int, sc *scenario, b *built) {
 		if nErr != 0 || nUpd < 1 {
 			wit["what"] = fmt.Sprintf("healthy subscription: expected updates and no error, got %d error / %d update", nErr, nUpd)
 			run.Violation(caseIdx, "", wit)
+		}
+		// no partial data: whatever was sent must fold to the complete result
+		// (the data never changes; failing re-runs are retried, not sent)
+		var wantJ interface{}
+		_ = json.Unmarshal([]byte(sc.want), &wantJ)
+		if got, want := vlib.Canon(client), vlib.Canon(diff.StripKey(wantJ)); got != want {
+			wit["what"] = "client state folded from the update envelopes differs from the query result although the data never changed (partial data sent)"
+			wit["client"], wit["want"] = vlib.Trunc(got, 2000), vlib.Trunc(want, 2000)
+			wit["late_failures"] = atomic.LoadInt64(&sc.plan.lateFailures)
+			run.Violation(caseIdx, "", wit)
+		}
+		if sc.plan.late && os.Getenv("C16_DEBUG") != "" {
+			fmt.Printf("LATE case=%d field=%s.%s runs=%d lateFailures=%d nUpd=%d envs=%s\n", caseIdx, sc.plan.lateTyp, sc.plan.lateField, atomic.LoadInt64(&sc.plan.runs), atomic.LoadInt64(&sc.plan.lateFailures), nUpd, vlib.Trunc(fmt.Sprint(envs), 300))
+		}
+		if sc.plan.late {
+			run.Count("ws_late_failing_rerun_scenarios", 1)
+			run.Count("ws_late_failures_observed", int(atomic.LoadInt64(&sc.plan.lateFailures)))
 		}
 	}
 }
